@@ -27,7 +27,8 @@ EXPLANATION = (
     " ROUND 7: R14 in the analyzers location() of an expression whose type the function examines is called inside the arm that found a type; R7-ERRORS-MERGED (shared with C06) no two .resolve()? in sequence in a statement-level Resolvable impl; panic sites that move between a function and its helper inherit their review."
     " ROUND 8: C11.R7 (every type position parses through the well-formedness check) and C06.R8 (the four places that join two results keep both error lists) are shared; R10-LINK-RESULT-CHECKED 'default diagnostic handler': no LLVM diagnostic handler is installed while a link result is discarded."
     " ROUND 9: C15.R15 (a u8 counter incremented per input token is bounded inside its loop) is shared for the first-generation parser."
-    " ROUND 10: R16-STRUCTURES-FORWARD-DECLARED: scoper::get_structure_name answers Some(name) for every Declaration::Structure, unconditionally, and the compiler forward declares each of those names before a group is generated (a NULL from LLVMGetTypeByName ends in a segmentation fault).")
+    " ROUND 10: R16-STRUCTURES-FORWARD-DECLARED: scoper::get_structure_name answers Some(name) for every Declaration::Structure, unconditionally, and the compiler forward declares each of those names before a group is generated (a NULL from LLVMGetTypeByName ends in a segmentation fault)."
+    " ROUND 12: R8-COMBINERS-KEEP-BOTH 'Vec<T>::resolve every element' (shared with C04/C06).")
 
 ENTRIES = [
     "alpha::lexer::lex", "alpha::parser::parse", "alpha::expander::expand", "alpha::expander::expand_one",
